@@ -298,7 +298,7 @@ func Report(r *core.Run, rejects []core.Reject, o reportOpts) {
 		r.Violate(core.Violation{Signature: sig, What: d.Describe() + fmt.Sprintf(" [%v]", d.Trace.Meta), Replay: path})
 	}
 	if len(others) > 0 {
-		r.Extra["deviations_recorded_for_other_properties"] = others
+		r.SetExtra("deviations_recorded_for_other_properties", others)
 	}
 	for _, rj := range rejects {
 		if o.Skip != nil && o.Skip(rj) {
